@@ -351,6 +351,24 @@ pub fn cache_async(attr: TokenStream, item: TokenStream) -> TokenStream {
         )
     };
 
+    // Verification hooks: register an inspector for this cache (feature `verif-hooks` only).
+    #[cfg(feature = "verif-hooks")]
+    let cache_logic = {
+        let est_expr = if !max_memory_expr.to_string().contains("None") {
+            quote! { Some((|v: &#ret_type| cachelito_core::MemoryEstimator::estimate_memory(v)) as fn(&#ret_type) -> usize) }
+        } else {
+            quote! { None }
+        };
+        quote! {
+            static VERIF_REGISTERED: once_cell::sync::OnceCell<()> = once_cell::sync::OnceCell::new();
+            VERIF_REGISTERED.get_or_init(|| {
+                cachelito_core::verif::register_async::<#ret_type>(
+                    #fn_name_str, &#cache_ident, &#order_ident, #est_expr);
+            });
+            #cache_logic
+        }
+    };
+
     // Generate invalidation registration code
     let invalidation_registration = if !attrs.tags.is_empty()
         || !attrs.events.is_empty()
